@@ -51,6 +51,8 @@ pub struct Ctx {
     pub threads: usize,
     /// optional restriction to work items whose label contains this string (replay / debugging)
     pub only: Option<String>,
+    /// run only this work-item index of the (outermost) parallel loop (replay of a hang)
+    pub only_item: Option<usize>,
 }
 
 impl Ctx {
@@ -263,6 +265,107 @@ impl CaseHash {
 }
 
 // ---------------------------------------------------------------------------------------------
+// liveness monitor: a worker that burns CPU without completing a guarded call / work item is
+// spinning inside the code under test (a call that never returns cannot satisfy any property)
+
+pub struct Slot {
+    pub tid: u64,
+    pub beats: std::sync::atomic::AtomicU64,
+    pub item: std::sync::atomic::AtomicU64,
+}
+
+static SLOTS: Mutex<Vec<std::sync::Arc<Slot>>> = Mutex::new(Vec::new());
+
+thread_local! {
+    static MY_SLOT: RefCell<Option<std::sync::Arc<Slot>>> = const { RefCell::new(None) };
+}
+
+fn my_tid() -> u64 {
+    std::fs::read_link("/proc/thread-self")
+        .ok()
+        .and_then(|p| p.file_name().map(|f| f.to_string_lossy().to_string()))
+        .and_then(|s| s.parse().ok())
+        .unwrap_or(0)
+}
+
+fn register_worker() {
+    MY_SLOT.with(|m| {
+        if m.borrow().is_none() {
+            let slot = std::sync::Arc::new(Slot {
+                tid: my_tid(),
+                beats: std::sync::atomic::AtomicU64::new(0),
+                item: std::sync::atomic::AtomicU64::new(u64::MAX),
+            });
+            SLOTS.lock().unwrap().push(std::sync::Arc::clone(&slot));
+            *m.borrow_mut() = Some(slot);
+        }
+    });
+}
+
+fn unregister_worker() {
+    MY_SLOT.with(|m| {
+        if let Some(slot) = m.borrow_mut().take() {
+            SLOTS.lock().unwrap().retain(|s| !std::sync::Arc::ptr_eq(s, &slot));
+        }
+    });
+}
+
+/// progress heartbeat (cheap): called at every guarded call and work item
+#[inline]
+pub fn beat() {
+    MY_SLOT.with(|m| {
+        if let Some(s) = m.borrow().as_ref() {
+            s.beats.fetch_add(1, Ordering::Relaxed);
+        }
+    });
+}
+
+fn set_item(i: u64) {
+    MY_SLOT.with(|m| {
+        if let Some(s) = m.borrow().as_ref() {
+            s.item.store(i, Ordering::Relaxed);
+            s.beats.fetch_add(1, Ordering::Relaxed);
+        }
+    });
+}
+
+/// CPU time (user+system, in clock ticks of 10 ms) consumed by thread `tid` of this process
+fn thread_cpu_ticks(tid: u64) -> Option<u64> {
+    let s = std::fs::read_to_string(format!("/proc/self/task/{}/stat", tid)).ok()?;
+    let rest = &s[s.rfind(')')? + 1..];
+    let f: Vec<&str> = rest.split_whitespace().collect();
+    Some(f.get(11)?.parse::<u64>().ok()? + f.get(12)?.parse::<u64>().ok()?)
+}
+
+/// Start the liveness monitor. `on_hang(item, cpu_seconds)` is called (once) from the monitor
+/// thread when a worker consumed more than `limit_cpu_s` CPU-seconds without a heartbeat.
+pub fn start_liveness_monitor(limit_cpu_s: u64, on_hang: Box<dyn Fn(u64, f64) + Send>) {
+    std::thread::spawn(move || {
+        // tid -> (beats seen, cpu ticks at that time)
+        let mut seen: std::collections::HashMap<u64, (u64, u64)> = std::collections::HashMap::new();
+        loop {
+            std::thread::sleep(std::time::Duration::from_millis(1500));
+            let slots: Vec<std::sync::Arc<Slot>> = SLOTS.lock().unwrap().clone();
+            for s in slots {
+                let Some(cpu) = thread_cpu_ticks(s.tid) else { continue };
+                let b = s.beats.load(Ordering::Relaxed);
+                match seen.get(&s.tid) {
+                    Some((b0, c0)) if *b0 == b => {
+                        if cpu.saturating_sub(*c0) > limit_cpu_s * 100 {
+                            on_hang(s.item.load(Ordering::Relaxed), (cpu - c0) as f64 / 100.0);
+                            return;
+                        }
+                    }
+                    _ => {
+                        seen.insert(s.tid, (b, cpu));
+                    }
+                }
+            }
+        }
+    });
+}
+
+// ---------------------------------------------------------------------------------------------
 // panic capture
 
 thread_local! {
@@ -288,6 +391,7 @@ pub fn install_panic_hook() {
 
 /// Run `f`, converting a panic into `Err(message @ location)`.
 pub fn guarded<T>(f: impl FnOnce() -> T) -> Result<T, String> {
+    beat();
     match catch_unwind(AssertUnwindSafe(f)) {
         Ok(v) => Ok(v),
         Err(_) => Err(LAST_PANIC
@@ -327,12 +431,19 @@ where
             s.spawn(|| {
                 pdatastructs::verif::reset();
                 pdatastructs::verif::set_kick_budget(None);
+                register_worker();
                 let mut local: Vec<(usize, Report)> = Vec::new();
                 loop {
                     let i = next.fetch_add(1, Ordering::Relaxed);
                     if i >= n_items {
                         break;
                     }
+                    if let Some(only) = ctx.only_item {
+                        if i != only {
+                            continue;
+                        }
+                    }
+                    set_item(i as u64);
                     let mut rep = Report::new();
                     let r = guarded(|| f(i, &mut rep));
                     if let Err(msg) = r {
@@ -352,6 +463,7 @@ where
                         results.lock().unwrap().push((first, acc));
                     }
                 }
+                unregister_worker();
                 let mut g = results.lock().unwrap();
                 g.extend(local);
             });
